@@ -63,7 +63,7 @@ def run_check(prop: str, tier: str, verif_seed: int, runs: int | None, shrink_en
 
         for j in range(max(1, n // 3)):
             s = P.run_seed(prop, verif_seed, j)
-            others = _r.Random(s ^ 0xD0).sample([2, 3, 4, 8], 2)
+            others = _r.Random(s ^ 0xD0).sample([2, 3, 4, 8] if tier == "quick" else [2, 3, 4, 5, 6, 7, 8], 2)
             for d in [1] + sorted(others):
                 items.append((len(items), s, d))
     else:
